@@ -116,9 +116,28 @@ def run(repo: Repo, L: Ledger, tier: str):
                 n_uses += 1
                 if isinstance(par, ast.For) and par.iter is n:
                     continue
-                if isinstance(par, ast.Attribute) and par.attr in ("tell", "seek", "readline", "close", "name"):
+                if isinstance(par, ast.Attribute) and par.attr in ("tell", "seek", "readline", "close", "name", "closed", "fileno", "mode"):
                     continue
-                bad.append(norm(par)[:60])
+                # lazy wrappers around line iteration: for i, line in enumerate(fh, 1) / iter(fh) / zip(count(), fh)
+                if isinstance(par, ast.Call) and dotted(par.func) in ("enumerate", "iter", "zip", "itertools.chain", "chain") and n in par.args:
+                    gp = getattr(par, "_parent", None)
+                    if isinstance(gp, ast.For) and gp.iter is par:
+                        continue
+                # consumers of the whole file
+                whole = (isinstance(par, ast.Call) and dotted(par.func) in ("list", "tuple", "sorted", "set", "frozenset", "bytes", "bytearray") and n in par.args) or (
+                    isinstance(par, ast.Call) and isinstance(par.func, ast.Attribute) and par.func.attr == "join" and n in par.args
+                ) or (isinstance(par, ast.Attribute) and par.attr in ("readlines", "readall"))
+                if isinstance(par, ast.Attribute) and par.attr == "read":
+                    rc_ = getattr(par, "_parent", None)
+                    if isinstance(rc_, ast.Call) and rc_.func is par:
+                        if not rc_.args and not rc_.keywords:
+                            whole = True
+                        else:
+                            continue  # sized read: bounded by its argument (R2/R3 look at the buffer arithmetic)
+                if whole:
+                    bad.append(norm(par)[:60])
+                else:
+                    raise AnalysisError(f"{f.short}: the FASTA handle is used as '{norm(par)[:70]}': neither line iteration nor a read of the whole file — form not understood")
     # whole-file reads through the path object
     for f in [idx, *idx.nested.values()]:
         for c in repo.calls_in(f):
